@@ -34,13 +34,3 @@ Definition overlapping (q : num * num * num * num) (rows : list bbox) : list nat
 (* the sub-list of l at the given positions *)
 Definition at_positions {A} (d : A) (l : list A) (js : list nat) : list A :=
   map (fun j => nth j l d) js.
-
-(* ---- C11: column projection ---- *)
-
-(* l2 is l1 with some elements removed (order kept) *)
-Fixpoint subseq {A} (eqb : A -> A -> bool) (l1 l2 : list A) : bool :=
-  match l1, l2 with
-  | [], _ => true
-  | _ :: _, [] => false
-  | x :: t1, y :: t2 => if eqb x y then subseq eqb t1 t2 else subseq eqb l1 t2
-  end.
